@@ -120,7 +120,10 @@ def guard_cases(rng, name, nd, safe, per):
             if rng.random() < 0.4: st["int"][0] = neg()
             else:
                 st["int"][0] = rng.randrange(0, 9)
-                st["float"][0] = rng.choice([0x7fc00000, fbits(-0.5), fbits(1.5), 0x7f800000, 0xff800000, fbits(-1e-30)])
+                # out of range by a hair too: a guard evaluated after rounding would let these through
+                st["float"][0] = rng.choice([0x7fc00000, fbits(-0.5), fbits(1.5), 0x7f800000, 0xff800000, fbits(-1e-30), fbits(1.004), fbits(-0.003),
+                                             0x3f800001, 0x80000001, fbits(1.0049), fbits(-0.0049), 0xffc00000])
+                if rng.random() < 0.5: st["int"][0] = rng.choice([8, 100, 150])
         elif name == "INTVECTOR.RAND":
             if rng.random() < 0.4: st["int"][0] = neg()
             else:
